@@ -4,8 +4,8 @@ import market_checks
 import runner_props
 
 PROP = "C10"
-LEAN_MODULES = ["PamsProps.C10"]
-NAMESPACES = ["Pams.C10"]
+LEAN_MODULES = ["PamsProps.C10", "PamsProps.SimE2E"]
+NAMESPACES = ["Pams.C10", "Pams.C10"]
 DRIVERS = ["Market", "Runner", "Pure", "Sim"]
 TRUSTED = [
     "Logger.process dispatch by isinstance is observed, not modelled: a recording Logger subclass overrides write/bulk_write/write_and_direct_process/_process/process_* and delegates",
